@@ -4,6 +4,7 @@ import (
 	"fmt"
 	"go/token"
 	"go/types"
+	"sort"
 	"strings"
 
 	"golang.org/x/tools/go/ssa"
@@ -715,5 +716,69 @@ func c10CacheReadsOwnRepo(c *Ctx) {
 		default:
 			c.ok(construct, 0, fmt.Sprintf("%d file accesses, each on filepath.Join(<root of the cache's project>, ...)", n))
 		}
+	}
+}
+
+// ---- C11.PAIR: the kinds the matcher distinguishes are visited through check only ----
+
+// c11OnlyCheckDispatches: the functions check hands a type-switched node to (checkVariable, checkObjectDeref, ...) run
+// between the enter and the leave callback only when check itself calls them. For every node kind that the callbacks of
+// the untrusted-input matcher treat specially (a type test on the callback's node parameter) no other function may call
+// the kind's handler directly: the node would be typed without being seen by the matcher - a sanitising call not counted,
+// a property access not stepped, a chain not ended.
+func c11OnlyCheckDispatches(c *Ctx, check *ssa.Function) {
+	p := c.P
+	kinds := map[string]bool{}
+	for _, nm := range []string{"OnVisitNodeEnter", "OnVisitNodeLeave"} {
+		f := p.Method("UntrustedInputChecker", nm)
+		if f == nil || len(f.Params) < 2 {
+			c.anchorMissing("(*UntrustedInputChecker)." + nm)
+			return
+		}
+		eachInstr(f, func(_ *ssa.BasicBlock, _ int, in ssa.Instruction) {
+			if ta, ok := in.(*ssa.TypeAssert); ok && ta.X == ssa.Value(f.Params[1]) {
+				kinds[typeStr(ta.AssertedType)] = true
+			}
+		})
+	}
+	construct := "(*ExprSemanticsChecker).check|kinds the matcher distinguishes are dispatched by check only"
+	if len(kinds) == 0 {
+		c.bad(construct, check.Pos(), "the callbacks of the untrusted-input matcher distinguish no node kind")
+		return
+	}
+	var bad []string
+	n := 0
+	eachInstr(check, func(_ *ssa.BasicBlock, _ int, in ssa.Instruction) {
+		call, ok := in.(ssa.CallInstruction)
+		if !ok || len(call.Common().Args) < 2 {
+			return
+		}
+		g := staticCallee(call.Common())
+		if g == nil || !inModule(g) {
+			return
+		}
+		ex, ok := call.Common().Args[1].(*ssa.Extract)
+		if !ok {
+			return
+		}
+		ta, ok := ex.Tuple.(*ssa.TypeAssert)
+		if !ok || ta.X != ssa.Value(check.Params[1]) || !kinds[typeStr(ta.AssertedType)] {
+			return
+		}
+		n++
+		for _, e := range p.callersOf(g) {
+			if e.Caller.Func != check {
+				bad = append(bad, FuncName(e.Caller.Func)+" calls "+FuncName(g)+" ("+typeStr(ta.AssertedType)+")")
+			}
+		}
+	})
+	sort.Strings(bad)
+	switch {
+	case n == 0:
+		c.bad(construct, check.Pos(), "check dispatches none of the kinds "+strings.Join(sortedKeys(kinds), ", ")+" to a handler")
+	case len(bad) > 0:
+		c.bad(construct, check.Pos(), shortList(bad, 3)+" without passing check: the enter/leave callbacks are skipped for that node, so a sanitising call is not counted (its arguments are reported) or a call/property access neither steps nor ends the chain (a read is lost)")
+	default:
+		c.ok(construct, check.Pos(), fmt.Sprintf("the handlers of the %d kinds with a case in the matcher's callbacks are called from check only", n))
 	}
 }
